@@ -55,7 +55,14 @@ def rep(m, pt, rng, opt, g2):
     if not opt or pt is None:
         return pt
     F = m.FQ2 if g2 else m.FQ
-    lam = F([rng.randrange(1, m.field_modulus), rng.randrange(m.field_modulus)]) if g2 else F(rng.randrange(1, m.field_modulus))
+    style = rng.randrange(4)
+    if g2 and style == 0:
+        # scaling by a constant of the base field: z stays "real" (a shape fast paths like to recognise)
+        lam = F([rng.choice([2, 3, m.field_modulus - 1, rng.randrange(2, m.field_modulus)]), 0])
+    elif g2 and style == 1:
+        lam = F([0, rng.randrange(1, m.field_modulus)])
+    else:
+        lam = F([rng.randrange(1, m.field_modulus), rng.randrange(m.field_modulus)]) if g2 else F(rng.randrange(1, m.field_modulus))
     x, y, z = pt
     return (x * lam, y * lam, z * lam)
 
@@ -74,6 +81,17 @@ def check_bilinear(key, rng, n_scalars):
         evals += 1
         if not got == base ** (a * b):
             return evals, dict(why=f"{key}: pairing(bQ, aP) != pairing(Q, P)^(ab)", a=a, b=b)
+    if opt:
+        # the generators themselves under base-field scalings (2x, 2y, 2), (-x, -y, -1), and a G1 scaling
+        for c in (2, m.field_modulus - 1):
+            lam2 = m.FQ2([c, 0])
+            Q_ = (m.G2[0] * lam2, m.G2[1] * lam2, m.G2[2] * lam2)
+            P_ = (m.G1[0] * c, m.G1[1] * c, m.G1[2] * c)
+            evals += 2
+            if not m.pairing(Q_, m.G1) == base:
+                return evals, dict(why=f"{key}: pairing depends on the projective representative of Q (scaled by the base-field constant {c})")
+            if not m.pairing(m.G2, P_) == base:
+                return evals, dict(why=f"{key}: pairing depends on the projective representative of P (scaled by {c})")
     # additivity and negation
     a, b = rng.randrange(1, r), rng.randrange(1, r)
     P1, P2 = m.multiply(m.G1, a), m.multiply(m.G1, b)
@@ -208,6 +226,33 @@ class PairingFamily:
                         return dict(why="pairing(infinity, P) is not the unit", representative=str(z)[:80])
                 except Exception as e:
                     return dict(why="pairing(infinity, P) raised", observed=f"{type(e).__name__}: {e}")
+            # history: verifications that end early (invalid key inside AggregateVerify, malformed signature, wrong key) must not
+            # change how pairing treats its arguments afterwards: after every such call an off-curve point must still be refused
+            if key == "optimized_bls12_381":
+                from py_ecc.bls import G2Basic, G2MessageAugmentation, G2ProofOfPossession
+                pk1, pk2 = G2Basic.SkToPk(3), G2Basic.SkToPk(5)
+                sig = G2Basic.Sign(3, b"m1")
+                bad_pk = b"\x00" * 48
+                inf_pk = b"\xc0" + b"\x00" * 47
+                badP_ = (m.G1[0], m.G1[1] + m.FQ.one(), m.G1[2])
+                calls = []
+                for S_ in (G2Basic, G2MessageAugmentation, G2ProofOfPossession):
+                    calls += [(S_.__name__ + ".Verify(wrong key)", lambda S_=S_: S_.Verify(pk2, b"m1", sig)),
+                              (S_.__name__ + ".Verify(malformed signature)", lambda S_=S_: S_.Verify(pk1, b"m1", b"\x00" * 96)),
+                              (S_.__name__ + ".AggregateVerify(one invalid key)", lambda S_=S_: S_.AggregateVerify([pk1, bad_pk], [b"m1", b"m2"], sig)),
+                              (S_.__name__ + ".AggregateVerify(identity key)", lambda S_=S_: S_.AggregateVerify([pk1, inf_pk], [b"m1", b"m2"], sig))]
+                calls += [("FastAggregateVerify(one invalid key)", lambda: G2ProofOfPossession.FastAggregateVerify([pk1, bad_pk], b"m1", sig)),
+                          ("PopVerify(invalid key)", lambda: G2ProofOfPossession.PopVerify(bad_pk, sig))]
+                for label, f_ in calls:
+                    try:
+                        f_()
+                    except Exception:
+                        pass
+                    try:
+                        m.pairing(m.G2, badP_)
+                        return dict(why=f"after {label} returned, pairing accepts a point that is not on the curve (call-history dependence)")
+                    except Exception:
+                        pass
             # off-curve arguments must be refused, also when the other argument is infinity
             if opt:
                 badP = (m.G1[0], m.G1[1] + m.FQ.one(), m.G1[2])
